@@ -11,6 +11,7 @@ import (
 	"sort"
 	"strconv"
 	"strings"
+	"sync"
 
 	"github.com/jackc/pgx/v5/pgtype"
 	wire "github.com/jeroenrinzema/psql-wire"
@@ -363,10 +364,28 @@ type retainedBytes struct {
 }
 
 type evlog struct {
-	ev []string
+	mu   sync.Mutex
+	ev   []string
+	conn *Conn // when set, every event is suffixed with "#<bytes delivered so far>"
 }
 
-func (l *evlog) add(s string) { l.ev = append(l.ev, s) }
+func (l *evlog) add(s string) {
+	if l.conn != nil {
+		l.conn.mu.Lock()
+		d := l.conn.delivered
+		l.conn.mu.Unlock()
+		s += "#" + strconv.Itoa(d)
+	}
+	l.mu.Lock()
+	l.ev = append(l.ev, s)
+	l.mu.Unlock()
+}
+
+func (l *evlog) snapshot() []string {
+	l.mu.Lock()
+	defer l.mu.Unlock()
+	return append([]string(nil), l.ev...)
+}
 
 func hx(b []byte) string { return hex.EncodeToString(b) }
 
